@@ -64,6 +64,26 @@ CHECKS = {
         technique="Lean 4 proof over hand-written trace model + recorded-materialisation correspondence",
         design="6/C03",
     ),
+    "C15": dict(
+        text=("Model/Granular.lean: read_granular (project on the declared columns, split by variant), _select_as_numpy "
+              "(selection by NAME, vector vs stack) and the assembly of BootstrapResult with scipy.stats.bootstrap and the "
+              "statistic as parameters. Theorems for all tables, column selections and id types: one part per distinct "
+              "variant; each part is exactly the variant's rows of the declared columns in source order (part_rows, "
+              "no_leak, row_width); the parts are, as a multiset, the whole projected table (partition_perm: nothing lost, "
+              "nothing duplicated); selecting a metric's columns from the experiment's shared read equals its own read "
+              "(shared_read_eq_standalone); control/treatment/effect/rel effect are the plain statistic of the full "
+              "samples; the interval fields are the resampler's answer for (control, treatment, stacked statistic, "
+              "settings) with index 0 -> absolute, 1 -> relative; the result is a function of samples, statistic and "
+              "settings incl. the seed (reproducible); intervals are ordered and one-sided under the resampler's contract. "
+              "Tie: correspondence of the model (DriverGranular.lean) with the real functions on 6 input kinds x id types; "
+              "the resampler parameter is instantiated by a direct scipy.stats.bootstrap call on the arrays and settings "
+              "the model prescribes and compared bit for bit, alone twice and inside an Experiment between other metrics."),
+        note=NOTE_COMMON + "What scipy.stats.bootstrap does inside (resampling, RNG) is not modelled: partial in that "
+             "sense; BootContract (lower <= upper, one-sided as the alternative says) is an assumption on scipy asserted on "
+             "every run. Order of the parts and SQL row order are not modelled (multiset comparison for Ibis-SQLite).",
+        technique="Lean 4 proof over hand-written model + correspondence + scipy oracle call prescribed by the model",
+        design="6/C15",
+    ),
     "C14": dict(
         text=("Theorems over the Lean definitions regenerated from aggr.py on every run: aggrOf(s1++s2) = aggrOf s1 + "
               "aggrOf s2 for all sample sizes >= 2 in any ordered field, commutativity, associativity, ratio_var/"
